@@ -152,6 +152,30 @@ let handle (f : Stdlib.String.t array) : Stdlib.String.t =
      | Ok (Some st', tr) -> "ok\t" ^ enc_env st'.s_env ^ "\t" ^ enc_env st'.s_aliases ^ "\t" ^ enc_decisions tr
      | Ok (None, tr) -> "fail\t" ^ enc_decisions tr
      | Err k -> "err\t" ^ err_name k)
+  | "fullv" ->
+    (* the composed model with the comparator and the matcher of C10 (coq/Model/ResolveReal.v request_full_real);
+       fields as for full.  answer: as full with three more fields: fw_real_ok (every product's version names are
+       conventional and no two of them spell the same key: the hypothesis of closure_exact_real), fw_conv (all
+       version names are conventional) and db_sorted (every listing is sorted as strings) - the hypotheses of
+       closure_exact_real_sorted -, or
+       outside TAB domain  when a declared version is not accepted by C10 or an expression does not evaluate *)
+    let fw = { fw_products = Stdlib.List.map dec_product (split_sep '|' f.(1));
+               fw_lines = Stdlib.List.map dec_lines (split_sep '|' f.(2));
+               fw_tags = Stdlib.List.map dec_tag (split_sep ',' f.(3)) } in
+    let cfg = dec_cfg f.(4) in
+    let st = { s_env = dec_env f.(5); s_aliases = dec_env f.(6) } in
+    let fuel = nat_of_int (int_of_string f.(11)) in
+    let flavors = dec_strlist ',' f.(12) in
+    let rc = site_config (dec_strlist ',' (if Stdlib.Array.length f > 13 then f.(13) else "")) [] in
+    let version = dec_optstr f.(8) in
+    if not (full_domain fw version) then "outside\tdomain" else
+    let ok = field_of_bool (fw_real_ok cfg fw) ^ "\t" ^ field_of_bool (fw_conv fw) ^ "\t" ^
+             field_of_bool (db_sorted (db_of cfg fw)) in
+    (match request_full_real fw cfg rc flavors fuel st (dec_str f.(7)) version
+             (bool_of_field f.(9)) (bool_of_field f.(10)) with
+     | Ok (Some st', tr) -> "ok\t" ^ enc_env st'.s_env ^ "\t" ^ enc_env st'.s_aliases ^ "\t" ^ enc_decisions tr ^ "\t" ^ ok
+     | Ok (None, tr) -> "fail\t" ^ enc_decisions tr ^ "\t" ^ ok
+     | Err k -> "err\t" ^ err_name k)
   | "req" ->
     let w = Stdlib.List.map dec_product (split_sep '|' f.(1)) in
     let cfg = dec_cfg f.(2) in
